@@ -414,6 +414,29 @@ def check(idx: Index, rep: Report, tier: str) -> str:
             else:
                 raise AnalysisError(f"{m.fq}: `{unparse(rt)}` is a construction-time simplification that is not in the reviewed identity table")
 
+    # ---- R6 precedence climbing: a tighter operator after the right operand is absorbed by recursion
+    r6 = rep.rule("C26.R6", "the affine expression parser hands the right operand of an operator to a recursive call with a higher minimum precedence whenever the next operator binds tighter (a whole chain of tighter operators belongs to the right operand)", floor=1)
+    pb = idx.func(APARSER, "AffineParser._parse_binop_rhs")
+    from ..astutil import norm_facts as _nf6, text_facts as _tf6
+
+    rhs_stores = [n for n in walk_local(pb.node) if isinstance(n, ast.Assign) and len(n.targets) == 1 and unparse(n.targets[0]) == "rhs"]
+    tighter = []
+    for n in rhs_stores:
+        facts = _nf6(_tf6(pb.node, n))
+        if any(re.fullmatch(r"tok_prec < .+", t_) and p_ for t_, p_ in facts) or any(re.fullmatch(r".+ > tok_prec", t_) and p_ for t_, p_ in facts):
+            tighter.append(n)
+    if not tighter:
+        raise AnalysisError(f"{pb.fq}: the step taken when the next operator binds tighter was not found")
+    for n in tighter:
+        v = n.value
+        rec = isinstance(v, ast.Call) and unparse(v.func) == "self._parse_binop_rhs" and len(v.args) >= 2 and unparse(v.args[0]) == "rhs" and re.fullmatch(r"tok_prec \+ 1|1 \+ tok_prec|next_prec", unparse(v.args[1]))
+        if rec:
+            r6.ok(pb.fq, f"{pb.loc} `{unparse(n)[:70]}`")
+        elif isinstance(v, ast.Call) and call_attr(v) in ("_create_binop_expr",):
+            r6.fail(pb.fq, Finding("C26.R6", pb.fq, "single-tighter-operator", f"`{unparse(n)[:80]}` applies exactly one tighter operator to the right operand instead of recursing with a higher minimum precedence: in `d0 + d1 * 2 floordiv 3` only `d1 * 2` is taken as the right operand of `+`, and the result is (d0 + d1 * 2) floordiv 3", f"{pb.module.relpath}:{n.lineno}"))
+        else:
+            raise AnalysisError(f"{pb.fq}: `{unparse(n)[:70]}` under 'next operator binds tighter' not understood")
+
     return (
         "Table agreement between the six dispatchers over AffineBinaryOpKind (binary, eval, constant folding, token "
         "printing and the affine parser, operator constructors, the flattener), reflected-operator rule, and two structural "
